@@ -58,6 +58,9 @@ FRAGMENTS = [
     f"{{{_HIT}}}",
     f"%s%(x)s{{0}}{{}}",
     f"x' if {_HIT} else 'x",
+    f'x" if {_HIT} else "x',
+    f"x', MISSING) and {_HIT} and d.get('x",
+    f"x' and {_HIT} and 'x",
 ]
 
 CORPUS = [
@@ -84,7 +87,7 @@ def rand_string(rng, maxlen=8) -> str:
         return "".join(chr(rng.choice([rng.randrange(0, 0x80), rng.randrange(0x80, 0x100), rng.randrange(0x100, 0x3000),
                                        rng.randrange(0xd800, 0xe000), rng.randrange(0xe000, 0x10000), rng.randrange(0x10000, 0x110000)]))
                        for _ in range(rng.randrange(1, maxlen)))
-    n = rng.randrange(0, maxlen + 1)
+    n = rng.randrange(1, maxlen + 1)
     return "".join(rng.choice(ALPHABET) for _ in range(n))
 
 
